@@ -244,3 +244,30 @@ func VerifC16_Strict() {
 		vxAssert("clean-run-succeeds", err == nil)
 	}
 }
+
+// VerifC10_WorkerOrder: the per-file workers of a check run in two independently chosen orders
+// (each worker to completion); the reports, the error flag and - in strict mode - the outcome must
+// be the same. (Natively the two runs are two real concurrent runs.)
+func VerifC10_WorkerOrder() {
+	mk := func() (*vxFS, []*vxNode) {
+		return nil, nil
+	}
+	_ = mk
+	f1 := &vxNode{name: "a.go", size: 10, badSrc: vxBool()}
+	f2 := &vxNode{name: "b.go", size: 10, badSrc: vxBool()}
+	f3 := &vxNode{name: "c.go", size: 10, readErr: vxBool()}
+	root := &vxNode{name: "r", dir: true, children: []*vxNode{f1, f2, f3}}
+	fsys := &vxFS{root: root, rootPath: "r"}
+	strict := vxBool()
+	files := []string{"r/a.go", "r/b.go", "r/c.go"}
+	o1, e1, err1 := ProcessFilesParallel(fsys, files, strict, nil)
+	o2, e2, err2 := ProcessFilesParallel(fsys, files, strict, nil)
+	vxAssert("same-outcome", (err1 == nil) == (err2 == nil) && e1 == e2 && len(o1) == len(o2))
+	if len(o1) == len(o2) {
+		for i := range o1 {
+			same := o1[i].File == o2[i].File && o1[i].ErrorMessage == o2[i].ErrorMessage && len(o1[i].Functions) == len(o2[i].Functions)
+			vxAssert("same-report-for-every-file-under-both-worker-orders", same)
+		}
+	}
+	vxCover("a-file-fails", e1)
+}
